@@ -47,7 +47,7 @@ type capB struct{ Y string }
 var Caps = []cty.Type{cty.Capsule("capA", reflect.TypeOf(capA{})), cty.Capsule("capB", reflect.TypeOf(capB{}))}
 
 // Names is an alphabet of NFC-stable attribute names (ASCII and precomposed/multi-byte).
-var Names = []string{"a", "b", "c", "id", "name", "é", "ß", "日本", "x_1", "Z"}
+var Names = []string{"a", "b", "c", "id", "name", "é", "ß", "日本", "x_1", "Z", "bell\a", "del\x7f", "q\"uote", "nl\n", "\x01"}
 
 func P(k Kind) *T { return &T{K: k} }
 
@@ -613,4 +613,14 @@ func Generalize(r *rng.R, t *T) *T {
 		*p = *P(Dyn)
 	}
 	return m
+}
+
+// FromCtyOrNil is FromCty but returns nil instead of panicking on unsupported types.
+func FromCtyOrNil(t cty.Type) (ret *T) {
+	defer func() {
+		if recover() != nil {
+			ret = nil
+		}
+	}()
+	return FromCty(t)
 }
